@@ -503,3 +503,82 @@ func ruleStoreValueImmutable(c *Ctx) {
 	}
 	c.Floor("store reads in Trie methods", nsrc, 2)
 }
+
+// ---------------------------------------------------------------------------
+// C10/C03 proof-key: proof verification re-walks the given nodes by THEIR OWN hash from the GIVEN root
+
+func ruleProofKey(c *Ctx) {
+	fd := c.P.Func(mptPkg, "", "VerifyProof")
+	if fd == nil {
+		c.Lost("anchor", "mpt.VerifyProof not found")
+		return
+	}
+	f := c.P.NewFuncCFG(fd)
+	pos := c.P.Pos(fd.Decl.Pos())
+	// (a) the scratch trie is rooted at a hash node of the root hash parameter, over a store created here
+	okRoot, okStore := false, false
+	for _, s := range f.CallSites("pkg/core/mpt.NewTrie") {
+		if len(s.call.Args) == 3 {
+			m0 := f.DirectMentions(s.call.Args[0])
+			okRoot = m0["pkg/core/mpt.NewHashNode"] && m0["param:rh"]
+			m2 := f.DirectMentions(s.call.Args[2])
+			okStore = m2["pkg/core/storage.NewMemCachedStore"] && m2["pkg/core/storage.NewMemoryStore"]
+		}
+	}
+	if okRoot {
+		c.OK("root", pos, "verification starts from a hash node of the root hash it is given")
+	} else {
+		c.Fail("root", pos, "VerifyProof no longer roots its scratch trie at NewHashNode(rh): the walk would not be anchored at the claimed state root")
+	}
+	if okStore {
+		c.OK("isolated-store", pos, "proof nodes are loaded into a store created inside the function")
+	} else {
+		c.Fail("isolated-store", pos, "VerifyProof no longer uses a store of its own: proof nodes could be satisfied from (or leak into) real node storage")
+	}
+	// (b) every proof element is stored under the hash of that very element
+	puts := f.CallSites("pkg/core/storage.(*MemCachedStore).Put")
+	if len(puts) == 0 {
+		c.Lost("puts", "VerifyProof stores no proof node")
+		return
+	}
+	for i, p := range puts {
+		key := fmt.Sprintf("self-keyed#%d", i+1)
+		if len(p.call.Args) != 2 {
+			c.Fail(key, c.P.Pos(p.call.Pos()), "unexpected Put shape")
+			continue
+		}
+		km := f.Mentions(p.call.Args[0], p.blk)
+		// the hashed expression and the stored expression must be the same element
+		same := false
+		if kc, ok := ast.Unparen(p.call.Args[0]).(*ast.CallExpr); ok && len(kc.Args) == 1 {
+			if hid, ok := ast.Unparen(kc.Args[0]).(*ast.Ident); ok {
+				for _, d := range f.defs[f.Info.ObjectOf(hid)] {
+					for _, r := range d.rhs {
+						if hc, ok := ast.Unparen(r).(*ast.CallExpr); ok && len(hc.Args) == 1 && f.calleeSym(hc) == "pkg/crypto/hash.DoubleSha256" && sameExpr(f.Info, hc.Args[0], p.call.Args[1]) {
+							same = true
+						}
+					}
+				}
+			}
+		}
+		if km["pkg/core/mpt.makeStorageKey"] && km["pkg/crypto/hash.DoubleSha256"] && same {
+			c.OK(key, c.P.Pos(p.call.Pos()), "a proof node is stored under makeStorageKey(DoubleSha256(that node))")
+		} else {
+			c.Fail(key, c.P.Pos(p.call.Pos()), "a proof element is stored under a key that is not the double-SHA256 of the element itself: a forged node could be served for another hash")
+		}
+	}
+	// (c) the walk is strict (exact key) and the result is the found leaf's value
+	strict := false
+	for _, s := range f.CallSites("pkg/core/mpt.(*Trie).getWithPath") {
+		if len(s.call.Args) == 3 {
+			if v, ok := boolConst(f.Info, s.call.Args[2]); ok && v {
+				strict = true
+			}
+		}
+	}
+	if strict {
+		c.OK("strict-walk", pos, "the path is walked in strict mode (exact key match)")
+	} else {
+		c.Fail("strict-walk", pos, "VerifyProof walks the path in non-strict mode: a proof for a prefix of the key would verify")
+	}
+}
